@@ -78,6 +78,9 @@ class G:
             return "merge"
         if os.path.exists(os.path.join(gd, "REVERT_HEAD")):
             return "revert"
+        if os.path.exists(os.path.join(gd, "sequencer", "todo")):
+            from .engine import in_progress
+            return in_progress(self.w, self.repo)
         return None
 
     def has_conflicts(self):
@@ -313,11 +316,13 @@ def fam_cherry_pick(g):
     if rng.random() < 0.8:
         yield upstream_change(g, pos, path)
         yield from g.commit_all()
-    if n > 1 and rng.random() < 0.5:
+    ranged = n > 1 and rng.random() < 0.5
+    if ranged:
         yield g.git("cherry-pick", "src~%d..src" % n, rewrite=True)
     else:
         yield g.git("cherry-pick", "src~%d" % rng.randint(0, n - 1), rewrite=True)
-    yield from resolve_loop(g, ["cherry-pick", "--continue"], ["cherry-pick", "--abort"])
+    yield from resolve_loop(g, ["cherry-pick", "--continue"], ["cherry-pick", "--abort"],
+                            must_abort=(ranged and g.gated("pick_conflict_multi_commit_notes")))
 
 
 def fam_amend(g):
@@ -672,6 +677,259 @@ def fam_human_overwrites_ai(g):
     yield from g.commit_all()
 
 
+# ---------------------------------------------------------------------------------------
+# families added in round 2 (reach measurement showed these mechanisms were never executed:
+# pull hooks, checkout/switch --merge, pathspec reset, pathspec stash, revert, CI rewrite)
+# ---------------------------------------------------------------------------------------
+
+def remote_file(g, path, ref="refs/remotes/origin/main"):
+    r = g.w.raw_git(g.repo, "show", "%s:%s" % (ref, path))
+    return r.out if r.code == 0 else None
+
+
+def remote_change(g, pos, path, who=HUMAN):
+    """somebody else's commit on the remote's main, at a position class relative to `path`'s AI lines"""
+    rng = g.rng
+    r = g.w.raw_git(g.repo, "ls-tree", "-r", "-z", "--name-only", "refs/remotes/origin/main")
+    rfiles = sorted(x for x in r.out.split("\0") if x)
+    if pos == "other_file":
+        others = [f for f in rfiles if f != path and remote_file(g, f) is not None and "\0" not in remote_file(g, f)]
+        f = rng.choice(others) if others and rng.random() < 0.7 else "up/u%d.txt" % g.ex.fresh_id()
+        kinds = ["insert", "replace", "append"]
+        pcs = None
+    else:
+        f = path
+        kinds = ["modify"] if pos == "conflict" else ["insert", "insert", "delete", "replace"]
+        pcs = [{"above": "top", "below": "bottom", "conflict": "inside_ai"}.get(pos, "any")]
+    old = remote_file(g, f)
+    new, desc = gen.mutate(rng, g.ex, old, who, g.hz, kinds=kinds if old else ["insert"], pos_classes=pcs,
+                           max_block=2 if pos == "conflict" else 4)
+    return {"op": "remote_commit", "path": f, "content": new, "desc": desc, "dt": g.dt()}
+
+
+def fam_pull(g):
+    """git pull in its forms: fast-forward with pending AI work, --rebase of local AI commits,
+    --rebase --autostash with pending work, merge"""
+    rng = g.rng
+    files = g.worktree_files()
+    path = rng.choice(files)
+    restricted = (["insert", "delete", "replace", "reindent", "append"]
+                  if g.gated("rebase_human_intraline_edit") else None)
+    yield from g.some_edits(n_ai=(1, 2), n_human=(0, 1), path=path)
+    yield from g.commit_all()
+    yield {"op": "setup_remote", "dt": g.dt()}
+    variant = rng.choice(["ff_pending", "ff_pending", "ff_clean", "rebase", "rebase", "rebase_autostash",
+                          "rebase_autostash", "merge"])
+    g.ex.probe("pull." + variant)
+    n_local = 0
+    if variant in ("rebase", "rebase_autostash", "merge"):
+        n_local = rng.randint(1, 2)
+        for _ in range(n_local):
+            anywhere = rng.random() >= 0.7
+            if variant == "rebase_autostash" and g.gated("hooks_pull_autostash_abort"):
+                anywhere = False      # keeps the autostash variant free of conflicts (the upstream change is in another file)
+            yield from g.some_edits(n_ai=(1, 2), n_human=(0, 1), path=None if anywhere else path,
+                                    human_kinds=restricted)
+            yield from g.commit_all()
+    pending = variant in ("ff_pending", "rebase_autostash")
+    if pending:
+        pos = "other_file"        # git refuses to pull over a locally modified file / autostash would conflict
+    elif variant == "merge":
+        pos = rng.choice(["above", "below", "other_file", "other_file"])
+    else:
+        pos = rng.choice(["above", "below", "interleaved", "other_file", "other_file", "conflict"])
+    for _ in range(rng.randint(1, 2)):
+        yield remote_change(g, pos, path)
+    if pending:
+        yield from g.some_edits(n_ai=(1, 2), n_human=(0, 1), path=path)
+    if variant in ("ff_pending", "ff_clean"):
+        yield g.git("pull", "-q", *rng.choice([["--ff-only"], [], ["--ff"]]), "origin", "main", rewrite=True)
+    elif variant == "rebase":
+        yield g.git("pull", "-q", "--rebase", "origin", "main", rewrite=True)
+    elif variant == "rebase_autostash":
+        yield g.git("pull", "-q", "--rebase", "--autostash", "origin", "main", rewrite=True)
+    else:
+        yield g.git("pull", "-q", "--no-rebase", "--no-edit", "origin", "main", rewrite=True)
+    if g.in_progress() == "merge":
+        yield {"op": "resolve", "strategy": "union", "dt": g.dt()}
+        yield g.git("commit", "-q", "--no-edit", check=True)
+    yield from resolve_loop(g, ["rebase", "--continue"], ["rebase", "--abort"],
+                            must_abort=((n_local > 1 and g.gated("rebase_conflict_multi_commit"))
+                                        or g.gated("pull_rebase_conflict")))
+    if g.in_progress():
+        return
+    if g.has_conflicts():
+        # the autostash could not be re-applied cleanly: finished by hand
+        g.ex.probe("pull.autostash_conflict")
+        yield {"op": "resolve", "strategy": "union", "dt": g.dt(), "relax": "one_sided"}
+        yield g.git("reset", "-q")
+    yield from g.commit_all()
+
+
+def fam_switch_merge(g):
+    """pending AI work carried to a branch that is at ANOTHER commit: plain checkout/switch when the
+    branches differ in other files only, --merge / -m when they differ in the same file"""
+    rng = g.rng
+    files = g.worktree_files()
+    path = rng.choice(files)
+    base = g.branch()
+    variant = rng.choice(["merge_same_file", "merge_same_file", "carry_other_file"])
+    g.ex.probe("switch_merge." + variant)
+    yield g.git("checkout", "-q", "-b", "other")
+    if variant == "carry_other_file":
+        yield upstream_change(g, "other_file", path)
+    else:
+        yield upstream_change(g, rng.choice(["above", "below", "above", "interleaved"]), path)
+    yield from g.commit_all()
+    yield g.git("checkout", "-q", base)
+    yield from g.some_edits(n_ai=(1, 2), n_human=(0, 1), path=path,
+                            ai_kinds=["insert", "insert", "append", "replace"])
+    if variant == "carry_other_file":
+        cmd = rng.choice([["checkout", "-q", "other"], ["switch", "-q", "other"]])
+    else:
+        cmd = rng.choice([["checkout", "-q", "--merge", "other"], ["switch", "-q", "--merge", "other"],
+                          ["checkout", "-q", "-m", "other"], ["switch", "-q", "-m", "other"]])
+    yield g.git(*cmd)
+    if g.has_conflicts():
+        g.ex.probe("switch_merge.conflict")
+        if g.gated("merge_switch_conflict"):
+            # known finding: INITIAL is written against the conflict-marker text; the work is given up instead
+            yield g.git("reset", "-q", "--hard", destructive=True)
+            return
+        yield {"op": "resolve", "strategy": "union", "dt": g.dt(), "relax": "one_sided"}
+        yield g.git("reset", "-q")
+    if rng.random() < 0.4:
+        yield from g.some_edits(n_ai=(0, 1), n_human=(0, 1))
+    yield from g.commit_all()
+
+
+def two_files_with_ai_work(g):
+    files = g.worktree_files()
+    while len(files) < 2:
+        yield g.ai_edit(new_file=True)
+        files = g.worktree_files()
+    f1, f2 = g.rng.sample(files, 2)
+    g.ex.gen_state["two_files"] = (f1, f2)
+    # known finding partial_unstaged_nonpure_hunk: what a later partial commit leaves unstaged must be pure insertions
+    kinds = ["insert", "append"] if g.gated("partial_unstaged_nonpure_hunk") else ["insert", "append", "replace"]
+    yield g.ai_edit(path=f1, kinds=kinds)
+    yield g.ai_edit(path=f2, kinds=kinds)
+
+
+def fam_reset_pathspec(g):
+    """mixed reset limited to a path: un-staging (git reset -- f) and un-doing one file of the last
+    commit (git reset HEAD~1 -- f) while the work tree keeps the lines"""
+    rng = g.rng
+    yield from two_files_with_ai_work(g)
+    f1, f2 = g.ex.gen_state["two_files"]
+    variant = rng.choice(["unstage", "older", "older"])
+    if g.gated("hooks_pathspec_reset"):
+        variant = "unstage"
+    g.ex.probe("reset_pathspec." + variant)
+    if variant == "unstage":
+        yield g.git("add", "-A")
+        yield g.git("reset", "-q", "--", f1, rewrite=True)
+        yield g.git("commit", "-q", "-m", g.msg(), check=True)
+    else:
+        yield from g.commit_all()
+        if rng.random() < 0.5:
+            yield g.ai_edit(path=f2, kinds=["insert", "append"])
+        yield g.git("reset", "-q", "HEAD~1", "--", f1, rewrite=True)
+        yield g.git("commit", "-q", "-m", g.msg(), check=True)
+    yield from g.commit_all()
+
+
+def fam_stash_pathspec(g):
+    """git stash push -- <path>: only one file's pending AI work is stashed"""
+    rng = g.rng
+    yield from two_files_with_ai_work(g)
+    f1, f2 = g.ex.gen_state["two_files"]
+    yield g.git("stash", "push", "-q", "--", f1, rewrite=True)
+    if rng.random() < 0.7:
+        yield from g.commit_all()
+    yield g.git("stash", "pop", "-q", rewrite=True)
+    if g.has_conflicts():
+        yield {"op": "resolve", "strategy": "union", "dt": g.dt(), "relax": "one_sided"}
+        yield g.git("reset", "-q")
+    yield from g.commit_all()
+
+
+def fam_revert(g):
+    """git revert (and revert of the revert), then a person writes at the same places.  Which
+    author a re-introduced line gets is not promised by any property: one-sided workloads only"""
+    rng = g.rng
+    files = g.worktree_files()
+    path = rng.choice(files)
+    yield from g.some_edits(n_ai=(1, 2), n_human=(0, 1), path=path)
+    yield from g.commit_all()
+    if rng.random() < 0.5:
+        yield upstream_change(g, "other_file", path)
+        yield from g.commit_all()
+        target = "HEAD~1"
+    else:
+        target = "HEAD"
+    yield g.git("revert", "--no-edit", target, check=True)
+    if g.in_progress():
+        yield g.git("revert", "--abort", aborts=True)
+        return
+    if rng.random() < 0.5:
+        yield g.git("revert", "--no-edit", "HEAD", check=True)
+    yield g.human_edit(path=path, kinds=["insert", "replace", "append"], pos=rng.choice(["top", "any", "bottom"]))
+    yield from g.commit_all()
+
+
+def fam_mv_rm(g):
+    """git mv / git rm of files with committed and pending AI lines, a person re-creating the old name"""
+    rng = g.rng
+    files = g.worktree_files()
+    path = rng.choice(files)
+    yield from g.some_edits(n_ai=(1, 2), n_human=(0, 1), path=path)
+    if rng.random() < 0.6:
+        yield from g.commit_all()
+    new = "moved/m%d.txt" % g.ex.fresh_id()
+    how = rng.choice(["mv", "mv", "rm", "rm_cached"])
+    g.ex.probe("mv_rm." + how)
+    if how == "mv":
+        yield g.git("add", "-A")
+        yield g.git("mv", path, new)
+        if rng.random() < 0.5:
+            yield g.ai_edit(path=new, kinds=["insert", "append"])
+    elif how == "rm":
+        yield g.git("add", "-A")
+        yield g.git("rm", "-q", "-f", path, destructive=True)
+    else:
+        yield g.git("add", "-A")
+        yield g.git("rm", "-q", "--cached", path)
+    yield from g.commit_all()
+    # a person re-creates the old name with their own lines
+    if g.w.read(g.repo, path) is None:
+        eol_lines = [gen.new_line(rng, g.ex) for _ in range(rng.randint(1, 4))]
+        yield {"op": "edit", "who": HUMAN, "files": {path: gen.join_lines(eol_lines)}, "dt": g.dt(),
+               "pre_ckpt": rng.random() < 0.5, "desc": {"kind": "recreate", "pos": "any", "who": HUMAN}}
+        yield from g.commit_all()
+
+
+def fam_ci_rewrite(g):
+    """the server-side rewrite: a feature branch with AI commits is pushed (notes follow), merged on
+    the server with PLAIN git as a squash or a rebase merge, and a CI clone runs
+    `git-ai ci local merge` / `git-ai squash-authorship` to carry the attribution over"""
+    rng = g.rng
+    files = g.worktree_files()
+    path = rng.choice(files)
+    yield {"op": "setup_remote", "dt": g.dt()}
+    n = rng.randint(1, 3)
+    yield from fam_feature_branch(g, n, path, rewritten=True)
+    yield g.git("push", "-q", "-u", "origin", "feat")
+    pos = rng.choice(["none", "other_file", "other_file", "above", "below"])
+    if pos != "none":
+        yield remote_change(g, pos, path)
+    how = rng.choice(["squash", "squash", "rebase"])
+    tool = rng.choice(["ci_local", "ci_local", "squash_authorship"]) if how == "squash" else "ci_local"
+    g.ex.probe("ci.%s.%s" % (how, tool))
+    yield {"op": "server_merge", "how": how, "head_ref": "feat", "base_ref": "main", "dt": g.dt()}
+    yield {"op": "ci_run", "tool": tool, "head_ref": "feat", "base_ref": "main", "dt": g.dt(), "check_ci": True}
+
+
 FAMILIES = {
     "human_overwrites_ai": fam_human_overwrites_ai,
     "destructive": fam_destructive,
@@ -689,7 +947,17 @@ FAMILIES = {
     "stash": fam_stash,
     "switch_carry": fam_switch_carry,
     "noop_failures": fam_noop_failures,
+    "pull": fam_pull,
+    "switch_merge": fam_switch_merge,
+    "reset_pathspec": fam_reset_pathspec,
+    "stash_pathspec": fam_stash_pathspec,
+    "revert": fam_revert,
+    "mv_rm": fam_mv_rm,
+    "ci_rewrite": fam_ci_rewrite,
 }
+
+# families whose outcome no property promises two-sidedly (a reverted-and-restored or renamed line)
+ONE_SIDED_FAMILIES = ("revert", "mv_rm")
 
 
 def cleanup_branches(g):
@@ -698,7 +966,7 @@ def cleanup_branches(g):
         st = g.in_progress()
         yield g.git(st if st != "cherry-pick" else "cherry-pick", "--abort", aborts=True)
     cur = g.branch()
-    for b in ("feat", "src", "carry"):
+    for b in ("feat", "src", "carry", "other"):
         if g.head("refs/heads/" + b):
             if cur == b:
                 yield g.git("branch", "-M", b, "was_%s_%d" % (b, g.msg_n))
